@@ -66,6 +66,19 @@ class Tree:
             txt = _read(os.path.join(au, "constants", c + ".hh")).decode("utf-8", "replace")
             m = re.search(r"constexpr\s+auto\s+(\w+)\s*=\s*make_constant\s*\(", txt)
             self.constant_names[c] = m.group(1) if m else None
+        # Macro names the library itself looks at or touches (#ifndef PI, #undef X, push_macro("X")):
+        # a user's program may have its own macro of that name, and both packagings must leave it
+        # in the same state.  Compiler-reserved names are not a user's to define.
+        names = set()
+        for h in self.all_headers:
+            txt = _read(os.path.join(REPO, CODE_REL, h)).decode("utf-8", "replace")
+            for m in re.finditer(r"^\s*#\s*(?:undef|ifndef|ifdef)\s+(\w+)", txt, re.M):
+                names.add(m.group(1))
+            for m in re.finditer(r"(?:push_macro|pop_macro)\s*\(\s*\"(\w+)\"\s*\)", txt):
+                names.add(m.group(1))
+            for m in re.finditer(r"^\s*#\s*(?:if|elif)\b(.*)$", txt, re.M):
+                names.update(re.findall(r"defined\s*\(?\s*(\w+)", m.group(1)))
+        self.macro_names = sorted(n for n in names if not n.startswith("_"))
         self._fp = None
 
     def non_ascii_headers(self):
